@@ -13,6 +13,12 @@ def run(cmd, cwd=None, timeout=3600, e=None):
 patch = os.path.join(src, "patch.diff"); demo = os.path.join(src, "demo_test.go")
 meta_txt = open(os.path.join(src, "meta.txt")).read() if os.path.exists(os.path.join(src, "meta.txt")) else ""
 race = "-race" in meta_txt
+if not meta_txt:
+    try:
+        _old = json.load(open(os.path.join("/verif/seeded", "%s-%s" % (prop, name), "meta.json")))
+        race = bool(_old.get("needs_race_flag_for_demo")) or "-race" in _old.get("what_it_needs", "")
+    except Exception:
+        pass
 wt = tempfile.mkdtemp(prefix="seedwt")
 os.rmdir(wt)
 rc, out = run("git -C /repo worktree add -q --detach %s HEAD" % wt)
